@@ -839,8 +839,12 @@ impl gen::CELVisitorCompat<'_> for Parser {
     fn visit_Int(&mut self, ctx: &IntContext<'_>) -> Self::Return {
         let string = ctx.get_text();
         let token = ctx.tok.as_ref().expect("Has to have int!");
-        let val = match if let Some(string) = string.strip_prefix("0x") {
-            i64::from_str_radix(string, 16)
+        let (sign, digits) = match string.strip_prefix('-') {
+            Some(digits) => ("-", digits),
+            None => ("", string.as_str()),
+        };
+        let val = match if let Some(hex) = digits.strip_prefix("0x") {
+            i64::from_str_radix(&format!("{sign}{hex}"), 16)
         } else {
             string.parse::<i64>()
         } {
